@@ -3,7 +3,7 @@ import json, os, subprocess
 from lib import extract as X
 
 def stage_gen():
-    st = X.Stage('tmplx-v1')
+    st = X.Stage('tmplx-v2')
     def build(out):
         if not os.path.exists(X.TMPLX):
             raise SystemExit('checker error: tmplx not built; run ./setup.sh')
